@@ -43,6 +43,9 @@ def replay(case):
               allow_unsolicited=scn['allow'])
     if scn['regex']:
         kw['valid_destination_regex'] = REGEX
+    if scn.get('endpoint') == 'otherBindingOnly':
+        other = (env.SP_ACS_REDIRECT, env.BINDING_REDIRECT) if scn['binding'] == 'post' else (env.SP_ACS_POST, env.BINDING_POST)
+        kw['endpoints'] = {'assertion_consumer_service': [other]}
     sp = spc.sp_for(**kw)
     doc = build(scn)
     conv = {'entity_id': env.SP, 'remote_addr': '0.0.0.0', 'request_uri': '/acs'} if scn['conv'] else None
@@ -69,7 +72,7 @@ def main():
         keep = []
         for c in cases:
             s = c['scn']
-            core = (not s['enc'] and s['binding'] == 'post')
+            core = (not s['enc'] and s['binding'] == 'post') or s['endpoint'] == 'otherBindingOnly'
             decided = c['mustAccept'] or c['mustReject']
             if (core and decided and chk.rng.random() < 0.5) or chk.rng.random() < 0.06:
                 keep.append(c)
